@@ -1,6 +1,6 @@
 (* Props_C17.v — property C17 (constants: exact value, declared type, exact range check). *)
-Require Import Base Syntax Consts.
-Require Import proofs.ConstsProofs.
+Require Import Base Syntax Consts ConstEmit.
+Require Import proofs.ConstsProofs proofs.ConstEmitProofs.
 Open Scope string_scope.
 
 (* The range check of Primitive::new is exact for every literal the grammar admits, of any
@@ -47,4 +47,63 @@ Example C17_nonvacuous :
   range_check_int U8 "255" = Some true /\ range_check_int U8 "256" = Some false /\
   range_check_int I8 "-0x80" = Some true /\ range_check_int I8 "-0x81" = Some false /\
   range_check_int U16 "-0" = Some false /\ spec_accept_int U16 "-0" = false.
+Proof. repeat split; vm_compute; reflexivity. Qed.
+
+(* ---- the emitted text (since the repair of the emitters constants are written by VALUE) ---- *)
+
+(* i128::to_string followed by the target's reading of a decimal literal is the identity, for
+   numbers of any size *)
+Theorem C17_decimal_print_roundtrip : forall n, Consts.digits 10 (show_N n) = Some n.
+Proof. exact digits_show_N. Qed.
+Print Assumptions C17_decimal_print_roundtrip.
+
+Theorem C17_printed_value_reads_back : forall z, eval_c_int (show_Z z) = Some z.
+Proof. exact eval_c_int_show_Z. Qed.
+Print Assumptions C17_printed_value_reads_back.
+
+(* C and C++: every accepted integer constant - whatever its spelling: leading zeros, hexadecimal,
+   negated hexadecimal, the most negative 64-bit value - is emitted as an expression that compiles
+   under -Werror (no literal beyond the signed range under an INTn_C macro) and evaluates to the
+   mathematical value *)
+Theorem C17_c_emitted_value : forall p raw v,
+  is_int p = true -> spec_accept_int p raw = true -> math_int (parse_literal raw) = Some v ->
+  eval_cexpr p (c_const_expr p raw) = Some v.
+Proof. exact c_emitted_exact. Qed.
+Print Assumptions C17_c_emitted_value.
+
+(* Java: the emitted literal compiles for the carrier type and is congruent to the value modulo
+   2^bits (Java has no unsigned types: the carrier holds the bit pattern) ... *)
+Theorem C17_java_emitted_carrier : forall p raw v sg bits,
+  int_bits p = Some (sg, bits) -> spec_accept_int p raw = true -> math_int (parse_literal raw) = Some v ->
+  exists j, java_read p (java_const_literal p raw) = Some j /\ ((j - v) mod 2 ^ Z.of_N bits = 0)%Z.
+Proof. exact java_emitted_carrier. Qed.
+Print Assumptions C17_java_emitted_carrier.
+
+(* ... and equal to the value whenever the carrier can hold it *)
+Theorem C17_java_emitted_value_when_it_fits : forall p raw v sg bits,
+  int_bits p = Some (sg, bits) -> spec_accept_int p raw = true -> math_int (parse_literal raw) = Some v ->
+  (if (bits =? 16)%N then (0 <= v)%Z else (- 2 ^ (Z.of_N bits - 1) <= v < 2 ^ (Z.of_N bits - 1))%Z) ->
+  java_read p (java_const_literal p raw) = Some v.
+Proof. exact java_emitted_exact_when_it_fits. Qed.
+Print Assumptions C17_java_emitted_value_when_it_fits.
+
+(* Rust keeps the IDL spelling of an integer constant, which Rust reads as the mathematical value *)
+Theorem C17_rust_emitted_value : forall p raw,
+  is_int p = true -> eval_rust_int (rust_const_literal p raw) = math_int (parse_literal raw).
+Proof.
+  intros p raw H. unfold rust_const_literal, is_int in *. destruct (int_bits p); [reflexivity|discriminate].
+Qed.
+Print Assumptions C17_rust_emitted_value.
+
+Example C17_emitted_nonvacuous :
+  show_cexpr (c_const_expr I64 "-0x8000000000000000") = "(INT64_C(-9223372036854775807) - 1)" /\
+  eval_cexpr I64 (c_const_expr I64 "-0x8000000000000000") = Some (- 2 ^ 63)%Z /\
+  show_cexpr (c_const_expr U16 "00017") = "UINT16_C(17)" /\
+  eval_cexpr U16 (c_const_expr U16 "00017") = Some 17%Z /\
+  show_cexpr (c_const_expr I32 "-0x80000000") = "INT32_C(-2147483648)" /\
+  java_const_literal U8 "200" = "-56" /\ java_read U8 "-56" = Some (-56)%Z /\
+  java_const_literal U64 "18446744073709551615" = "-1L" /\
+  java_const_literal I16 "-1" = "65535" /\
+  java_const_literal F32 "1.5" = "1.5f" /\ rust_const_literal F64 "3" = "3.0" /\
+  spec_accept_int I64 "-0x8000000000000000" = true.
 Proof. repeat split; vm_compute; reflexivity. Qed.
